@@ -856,6 +856,7 @@ func main() {
 	containers(h)
 	containerScripts(h)
 
+	h.wd.Beat("writing cases and report")
 	h.cases.Close()
 	rep.Extra["coq_cases"] = h.idx
 	rep.Sample("int8.Add(z, 127, 1) = -128")
